@@ -255,7 +255,7 @@ CHECKS = {
 # instrumented, harness monitors not) at a lower preemption bound: a data race in the library on any explored schedule is a
 # violation.  This is what sees a memory order weakened below what the algorithm needs when the interleaving itself stays
 # correct under sequential consistency.
-SEQUENTIAL = {"mtx_v2_ops", "evt_v2_ops", "evt_v1_ops", "fut_closed", "fut_faults", "det_terminate", "fut_ops", "sch_tramp", "tim_unsafe", "tim_clockmath", "ksim_conf", "uring_conf",
+SEQUENTIAL = {"scope_ops", "mtx_v2_ops", "evt_v2_ops", "evt_v1_ops", "fut_closed", "fut_faults", "det_terminate", "fut_ops", "sch_tramp", "tim_unsafe", "tim_clockmath", "ksim_conf", "uring_conf",
               "bulk_findif", "bulk_sched", "bulk_policy", "expr_d1", "expr_d2", "expr_cfault", "expr_known_lvss", "expr_ctx", "payload_adaptors", "traits_corpus",
               "ctx_throwing_value", "strm_seq", "strm_sources", "coro_script", "coro_return_throws", "trace_chain", "any_storage", "any_unique_seq",
               "any_object_seq", "any_object_nt_seq"}
